@@ -41,7 +41,9 @@ static void symbolic_buffers() { for (uint32_t j = 0; j < 32; j++) { sbuf[0][j] 
 
 // ---------------------------------------------------------------------------------------------------------------------
 // embed_label(label, DS) -> [bind_label] -> relocate_to_base(base): the DS-byte field holds base + section offset + label offset.
-template<uint32_t DS, uint32_t SID>
+// SID (emitting section) and BOUND (label bound before the reference) are concrete per instantiation and chosen by a symbolic
+// branch in the harness: a symbolic flag would leave the symbolic executor with a fixup chain / cursor it cannot resolve.
+template<uint32_t DS, uint32_t SID, bool BOUND>
 static void embed_label_flow_s() {
   bool x64 = nondet_bool();
   CodeHolder* c = make_holder(x64 ? Arch::kX64 : Arch::kX86, 2);
@@ -49,7 +51,7 @@ static void embed_label_flow_s() {
   constexpr uint32_t pos = 4;
   constexpr uint32_t sid = SID;   // concrete per instantiation: a symbolic emitting section makes the cursor arithmetic symbolic
   BaseAssembler* a = make_asm(c, sid, pos);
-  bool bound = nondet_bool();
+  constexpr bool bound = BOUND;
   uint32_t lsid = nondet_bool() ? 1 : 0; uint64_t loff = nondet_u64();
   uint32_t id = bound ? add_bound_label(lsid, loff) : add_label();
   uint8_t guard_before = sbuf[sid][pos - 1];
@@ -90,7 +92,11 @@ static void embed_label_flow_s() {
   if (rerr == Error::kOk) { V_ASSERT(field == want, "embedded label address is base + section offset + label offset"); V_WITNESS("embed-label-address"); }
   else { V_ASSERT(field == 0, "refused label address leaves the placeholder"); if (DS != 8 && DS != 0) V_WITNESS("embed-label-address-refused"); }
 }
-template<uint32_t DS> static void embed_label_flow() { if (nondet_bool()) embed_label_flow_s<DS, 1>(); else embed_label_flow_s<DS, 0>(); }
+template<uint32_t DS> static void embed_label_flow() {
+  uint32_t sel = nondet_u8() & 3;
+  if (sel == 0) embed_label_flow_s<DS, 0, false>(); else if (sel == 1) embed_label_flow_s<DS, 0, true>();
+  else if (sel == 2) embed_label_flow_s<DS, 1, false>(); else embed_label_flow_s<DS, 1, true>();
+}
 HARNESS h_embed_label_0() { embed_label_flow<0>(); }
 HARNESS h_embed_label_1() { embed_label_flow<1>(); }
 HARNESS h_embed_label_2() { embed_label_flow<2>(); }
@@ -116,7 +122,7 @@ HARNESS h_embed_label_invalid() {
 // ---------------------------------------------------------------------------------------------------------------------
 // embed_label_delta(label, base, DS) -> [bind either] -> relocate_to_base: the field holds (section + label) - (section + base label).
 // mode 0: main harness (region of known finding C03a excluded while it is open); mode 1: confined to that region.
-template<uint32_t DS, uint32_t SID>
+template<uint32_t DS, uint32_t SID, bool BOUND_A, bool BOUND_B>
 static void embed_delta_flow_s(int mode) {
   bool x64 = nondet_bool();
   CodeHolder* c = make_holder(x64 ? Arch::kX64 : Arch::kX86, 2);
@@ -124,7 +130,7 @@ static void embed_delta_flow_s(int mode) {
   constexpr uint32_t pos = 8;
   constexpr uint32_t sid = SID;
   BaseAssembler* a = make_asm(c, sid, pos);
-  bool bound_a = nondet_bool(), bound_b = nondet_bool();
+  constexpr bool bound_a = BOUND_A, bound_b = BOUND_B;
   uint32_t sa = nondet_bool() ? 1 : 0, sb = nondet_bool() ? 1 : 0; uint64_t oa = nondet_u64(), ob = nondet_u64();
   uint32_t la = bound_a ? add_bound_label(sa, oa) : add_label();
   uint32_t lb = bound_b ? add_bound_label(sb, ob) : add_label();
@@ -170,7 +176,15 @@ static void embed_delta_flow_s(int mode) {
     V_WITNESS("embed-delta-refused");
   }
 }
-template<uint32_t DS> static void embed_delta_flow(int mode) { if (nondet_bool()) embed_delta_flow_s<DS, 1>(mode); else embed_delta_flow_s<DS, 0>(mode); }
+template<uint32_t DS, uint32_t SID> static void embed_delta_flow_b(int mode) {
+  uint32_t sel = nondet_u8() & 3;
+  if (sel == 0) embed_delta_flow_s<DS, SID, false, false>(mode); else if (sel == 1) embed_delta_flow_s<DS, SID, false, true>(mode);
+  else if (sel == 2) embed_delta_flow_s<DS, SID, true, false>(mode); else embed_delta_flow_s<DS, SID, true, true>(mode);
+}
+template<uint32_t DS> static void embed_delta_flow(int mode) {
+  if (mode == 1) { if (nondet_bool()) embed_delta_flow_s<DS, 1, true, true>(1); else embed_delta_flow_s<DS, 0, true, true>(1); return; }  // the finding needs both bound
+  if (nondet_bool()) embed_delta_flow_b<DS, 1>(mode); else embed_delta_flow_b<DS, 0>(mode);
+}
 HARNESS h_embed_delta_0() { embed_delta_flow<0>(0); }
 HARNESS h_embed_delta_1() { embed_delta_flow<1>(0); }
 HARNESS h_embed_delta_2() { embed_delta_flow<2>(0); }
@@ -200,6 +214,9 @@ static void expression_eval() {
   uint64_t lv = sec(lsid)->_offset + loff;
   uint32_t op = nondet_u8() % 7, op2 = nondet_u8() % 6;   // op == 6: invalid operator
   uint64_t k1 = nondet_u64(), k2 = nondet_u64();
+  // a multiplier circuit against a second multiplier circuit is beyond SAT at 64x64 bits: the constant factor is 8 bits wide
+  if (op == 2) k2 &= 0xFF;
+  if (op2 == 2) k1 &= 0xFF;
   // (field-wise initialisation: Expression::reset() is a memset over a typed object, dear for the solver and opaque for constant propagation)
   for (uint32_t i = 0; i < 2; i++) { ex_outer.value_type[i] = ExpressionValueType::kNone; ex_inner.value_type[i] = ExpressionValueType::kNone; ex_outer.value[i].constant = 0; ex_inner.value[i].constant = 0; }
   for (uint32_t i = 0; i < 5; i++) { ex_outer.reserved[i] = 0; ex_inner.reserved[i] = 0; }
